@@ -1301,6 +1301,13 @@ func (w *responseWriter) close() {
 		// treat as empty successful response
 		w.WriteHeader(http.StatusOK)
 	}
+	var trailer http.Header
+	if !w.endWritten && w.respMeta != nil {
+		// Take the handler's trailers out of the header map before finishing
+		// the body: if that step fails, the error must be the only outcome
+		// the client sees, not an addition to the handler's own trailers.
+		trailer = httpExtractTrailers(w.Header(), w.respMeta.pendingTrailerKeys)
+	}
 	if w.w != nil {
 		_, _ = w.w.Write(nil) // trigger any final writes
 		_ = w.w.Close()
@@ -1314,7 +1321,6 @@ func (w *responseWriter) close() {
 		return
 	}
 	// try to get end from trailers
-	trailer := httpExtractTrailers(w.Header(), w.respMeta.pendingTrailerKeys)
 	end, err := w.op.server.protocol.extractEndFromTrailers(w.op, trailer)
 	if err != nil {
 		w.reportError(err)
